@@ -281,8 +281,11 @@ def minClusterLoop (l : List Info) (cluster : Nat) : Nat → Nat → M Nat
 /-- src: buffer.rs::_infos_find_min_cluster -/
 def findMinCluster (level : Nat) (l : List Info) (start stop : Nat) (cluster : Nat) : M Nat := do
   if start == stop then return cluster
-  if stop < start || stop > l.length then throw .oob   -- `&info[start..end]` / `info[end - 1]`
-  let cluster ← if level == 1 then minClusterLoop l cluster start (stop - start) else pure cluster
+  let cluster ← if level == 1 then
+      -- `&info[start..end]` panics when start > end or end > len
+      (if stop < start || stop > l.length then throw .oob else minClusterLoop l cluster start (stop - start))
+    else pure cluster
+  if stop = 0 then throw .oob
   let a ← get l start
   let z ← get l (stop - 1)
   pure (min cluster (min a.cluster z.cluster))
@@ -345,7 +348,8 @@ def addScratch (b : Buf) (ch : Bool) : Buf :=
 /-- src: buffer.rs::_set_glyph_flags  (`stop = none` means "to the end") -/
 def setGlyphFlags (b : Buf) (mask : Nat) (start : Nat) (stop : Option Nat) (interior fromOut : Bool) : M Buf := do
   let stop := min (stop.getD b.len) b.len
-  if interior && !fromOut && stop - start < 2 then return b
+  -- `end - start < 2` is a usize subtraction: it wraps (release build) when the clamped end is below start
+  if interior && !fromOut && start ≤ stop && stop - start < 2 then return b
   let b := { b with scratch := b.scratch ||| SCRATCH_HAS_GLYPH_FLAGS }
   if !fromOut || !b.haveOutput then
     if !interior then
